@@ -71,10 +71,16 @@ def _run(scratch, steps, choices, variant):
     return qsrun.run_script(scratch, steps, choices, run_cls=R)
 
 
-def with_restarts(steps, positions):
+DOWNTIMES = [0, 0, 0, 7, 200, 4000]
+
+
+def with_restarts(steps, positions, salt=0):
+    """Insert the stop / down time / start step at the given positions.  The down time is a
+    function of (salt, position) so that every history sees all of them over its positions."""
     out = list(steps)
     for p in sorted(positions, reverse=True):
-        out.insert(p, ["restart"])
+        dt = DOWNTIMES[(p + salt) % len(DOWNTIMES)]
+        out.insert(p, ["restart", dt] if dt else ["restart"])
     return out
 
 
@@ -107,7 +113,7 @@ def worker(seed, widx, nworkers, plan, scratch):
             p = r2.randrange(len(H))
             plans += [([p, q], "AB"[(q + i) % 2]) for q in range(p + 1, len(H) + 1)]
         for positions, variant in plans:
-            steps = with_restarts(H, positions)
+            steps = with_restarts(H, positions, salt=i)
             res = _run(scratch, steps, ch, variant)
             n += 1
             digest_dump(f"{i}@{positions}", res["digest"])
